@@ -246,7 +246,7 @@ def main():
         'trusted_base': P.get('trusted', []) + ['Verus 0.2026.09.13 / Z3 / vstd', 'rustc'] + (['Kani 0.68 / CBMC 6.11'] if kres else []),
         'samples': samples,
         'explanation': P['explain'],
-        'backend': 'verus(z3)' + ('+kani(cbmc)' if kres else ''),
+        'backend': 'verus(z3)' + ('+kani(cbmc)' if any(k.get('backend') is None for k in kres) else '') + ('+native-enumeration(cargo test; bounded stand-in)' if any(k.get('backend') for k in kres) else ''),
         'spec_lemmas': lemma_status,
         'syntactic_ownership_checks': synt,
         'verus_functions_verified_whole_file': run.verified,
